@@ -356,7 +356,7 @@ func tlaSeq(xs []int) string {
 	return "<<" + strings.Join(p, ", ") + ">>"
 }
 
-const alphabetLen = 13
+const alphabetLen = 15
 
 func runModel(c *core.Ctx, maxLen int, extra [][]int, pairs [][2][]int, deviations []string, coverage bool) ([]*Prog, *tlc.Result, error) {
 	var ex, pr, dv []string
